@@ -219,6 +219,7 @@ func runDetStream(c *runCtx) {
 	}
 	// inputs synthesised from the translated terms of the current source (witness.go)
 	c.witnessStream("/repo")
+	c.siblingStream("/repo")
 	// the byte right behind an occurrence of a signature literal is where length / width / count fields live: boundary
 	// values there (all values in the thorough tier) - a loop or an index driven by such a field shows up as a hang
 	// (watchdog) or a panic
